@@ -25,7 +25,7 @@ deriving Repr
 variable {K V : Type} [DecidableEq K]
 
 /-- `nextPoT(int n)` for `1 ≤ n ≤ 2^30`: `n--; n |= n >> k` for every regenerated shift `k`; `n + 1`.
-(For `n = 0` the C++ `int` wraps to a 0-bucket table; the model gives 1 — outside the generated range.) -/
+(For `n < 1` the C++ `int` gives 0 — see `nextPoTInt` below; this natural-number version gives 1 at 0.) -/
 def nextPoT (n : Nat) : Nat :=
   potShifts.foldl (fun n k => n ||| (n >>> k)) (n - 1) + 1
 
